@@ -742,6 +742,11 @@ def type_atom_truth(repo, modname: str, atom: str, ty: str, attr: str = "orig_ty
     for x in ast.walk(e.comparators[0]):
         if isinstance(x, ast.Attribute) and x.attr in FIVE_TYPES:
             names.add(x.attr)
+        elif isinstance(x, ast.Attribute) and isinstance(x.value, ast.Name) and x.value.id in ("kconfiglib", "core"):
+            v = repo.resolve_const("esp_kconfiglib.core", x.attr)
+            if v is None:
+                return None
+            names |= {y.id for y in ast.walk(v) if isinstance(y, ast.Name) and y.id in FIVE_TYPES}
         elif isinstance(x, ast.Name):
             if x.id in FIVE_TYPES:
                 names.add(x.id)
@@ -1114,3 +1119,29 @@ def stores_independent_of_evaluation(ctx, quals: Iterable[str], attrs: Tuple[str
             else:
                 ctx.ok(construct, f.loc(st))
     return n
+
+
+def facts_imply(facts: Set[Tuple[str, bool]], goal: str, fixed=None) -> bool:
+    """do the facts (read as propositional formulas over their leaves) imply the formula `goal`? `fixed(leaf) -> bool|None`
+    assigns a truth value to leaves whose value is known from elsewhere (e.g. type tests for a given symbol type)."""
+    import itertools
+    ge = ast.parse(goal, mode="eval").body
+    atoms_s: Set[str] = set()
+    _bool_leaves(ge, atoms_s)
+    parsed = [(p, parse_key(k)) for k, p in sorted(facts)]
+    for _, e in parsed:
+        _bool_leaves(e, atoms_s)
+    fx: Dict[str, bool] = {}
+    for a in atoms_s:
+        t = fixed(a) if fixed else None
+        if t is not None:
+            fx[a] = t
+    free = sorted(atoms_s - set(fx))
+    if len(free) > 16:
+        raise AnalysisError(f"{len(free)} free atoms in an implication")
+    for vals in itertools.product((True, False), repeat=len(free)):
+        v = dict(fx)
+        v.update(zip(free, vals))
+        if all(_bool_eval(e, v) == p for p, e in parsed) and not _bool_eval(ge, v):
+            return False
+    return True
